@@ -520,8 +520,52 @@ func posFn(in []int, out []int) FuncSpec {
 func Hostile(r *rand.Rand) (Scenario, string) {
 	t := distinctTypes(r, 6)
 	var s Scenario
-	fam := r.Intn(10)
+	fam := r.Intn(15)
 	switch fam {
+	case 14: // dependency cycle through two multi-input converters with single-input converters in between
+		// A:(eA,eS)->eX, C:eX->eB, B:(eB,eS)->eA1, D:eA1->eA; only eS supplied
+		eS, eA, eX, eB, eA1 := t[0], t[1], t[2], t[3], t[4]
+		s.Inputs = []Label{{Type: eS}}
+		s.Convs = []FuncSpec{
+			posFn([]int{eA, eS}, []int{eX}),
+			posFn([]int{eX}, []int{eB}),
+			posFn([]int{eB, eS}, []int{eA1}),
+			posFn([]int{eA1}, []int{eA}),
+		}
+		r.Shuffle(len(s.Convs), func(i, j int) { s.Convs[i], s.Convs[j] = s.Convs[j], s.Convs[i] })
+		s.Target = posFn([]int{pick(r, []int{eX, eB, eA1, eA})}, nil)
+		return s, "mutual-spaced"
+	case 13:
+		return sameNameUnnamed(r), "same-name-unnamed-types"
+	case 12: // a value of a type Go considers assignable to the parameter's type, yet a different type
+		pr := [][2]int{{9, 10}, {10, 9}, {13, 14}, {14, 13}, {16, 15}}[r.Intn(5)] // {wanted, supplied}
+		n := pick(r, []string{"a", ""})
+		s.Inputs = []Label{{Name: n, Type: pr[1]}}
+		s.Target = FuncSpec{In: []Label{{Name: n, Type: pr[0]}}, InForm: FormStruct}
+		switch r.Intn(3) {
+		case 0: // the value is produced by a converter
+			s.Inputs = []Label{{Type: t[0]}}
+			s.Convs = []FuncSpec{{In: []Label{{Type: t[0]}}, Out: []Label{{Name: n, Type: pr[1]}}, InForm: FormPos, OutForm: FormStruct}}
+		case 1: // the consumer is a converter
+			s.Convs = []FuncSpec{{In: []Label{{Name: n, Type: pr[0]}}, Out: []Label{{Type: t[1]}}, InForm: FormStruct, OutForm: FormPos}}
+			s.Target = posFn([]int{t[1]}, nil)
+		}
+		return s, "assignable-not-identical"
+	case 10: // subtype matching must not become transitive: a:T/y -> a:T (converter input) -/-> a:T/x
+		n := pick(r, []string{"a", "b", ""})
+		s.Inputs = []Label{{Name: n, Type: t[0], Sub: "y"}}
+		s.Convs = []FuncSpec{{In: []Label{{Name: n, Type: t[0]}}, Out: []Label{{Type: t[1]}}, InForm: FormStruct, OutForm: FormPos}}
+		s.Target = FuncSpec{In: []Label{{Name: n, Type: t[0], Sub: "x"}}, InForm: FormStruct}
+		if r.Intn(2) == 0 {
+			s.Target.In = append(s.Target.In, Label{Type: t[1]})
+		}
+		return s, "subtype-not-transitive"
+	case 11: // the same with the subtype-less vertex declared by an unsatisfiable provider
+		n := pick(r, []string{"a", "b", ""})
+		s.Inputs = []Label{{Name: n, Type: t[0], Sub: "y"}}
+		s.Convs = []FuncSpec{{In: []Label{{Type: t[4]}}, Out: []Label{{Name: n, Type: t[0]}}, InForm: FormPos, OutForm: FormStruct}}
+		s.Target = FuncSpec{In: []Label{{Name: n, Type: t[0], Sub: "x"}}, InForm: FormStruct}
+		return s, "subtype-not-transitive-provider"
 	case 0: // mutual recursion between two multi-input converters (D2 shape)
 		s.Inputs = []Label{{Type: t[0]}}
 		s.Convs = []FuncSpec{posFn([]int{t[0], t[1]}, []int{t[2]}), posFn([]int{t[0], t[2]}, []int{t[1]})}
@@ -628,10 +672,10 @@ func consumerFor(src Label, r *rand.Rand, subtypes bool) Label {
 // Layered builds a scope-(b) scenario.
 func Layered(r *rand.Rand, subtypes bool, failP float64) Scenario {
 	var s Scenario
-	rank := r.Perm(len(types)) // rank[t]
+	rank := r.Perm(nTypes) // rank[t]
 	inRank := func(t int) int {
 		m := rank[t]
-		for c := 0; c < len(types); c++ {
+		for c := 0; c < nTypes; c++ {
 			if implements(c, t) && rank[c] > m {
 				m = rank[c]
 			}
@@ -691,7 +735,7 @@ func Layered(r *rand.Rand, subtypes bool, failP float64) Scenario {
 		}
 		// outputs of strictly higher rank
 		var higher []int
-		for t := 0; t < len(types); t++ {
+		for t := 0; t < nTypes; t++ {
 			if rank[t] > maxIn {
 				higher = append(higher, t)
 			}
@@ -779,4 +823,27 @@ func oddNames(s Scenario) Scenario {
 		t.Convs[i] = c
 	}
 	return t
+}
+
+// sameNameUnnamed: values of one name and different UNNAMED Go types (their
+// reflect.Type.Name() is empty), one of them carrying a subtype, linked by a
+// single-input converter: n:B/json -> n:A/parsed, target n:A. Derivable, and
+// in C05's scope (a).
+func sameNameUnnamed(r *rand.Rand) Scenario {
+	un := []int{9, 11, 12, 13, 15, 17}
+	p := r.Perm(len(un))
+	A, B := un[p[0]], un[p[1]]
+	n := pick(r, []string{"a", "b", "c"})
+	var s Scenario
+	s.Inputs = []Label{{Name: n, Type: B, Sub: "json"}}
+	s.Convs = []FuncSpec{{In: []Label{{Name: n, Type: B, Sub: "json"}}, Out: []Label{{Name: n, Type: A, Sub: "parsed"}}, InForm: FormStruct, OutForm: FormStruct, HasErr: r.Intn(2) == 0}}
+	s.Target = FuncSpec{In: []Label{{Name: n, Type: A}}, InForm: FormStruct}
+	switch r.Intn(3) {
+	case 0: // both forms supplied
+		s.Inputs = append(s.Inputs, Label{Name: n, Type: A, Sub: "parsed"})
+	case 1: // an unrelated parameter next to it
+		s.Inputs = append(s.Inputs, Label{Type: 0})
+		s.Target.In = append(s.Target.In, Label{Type: 0})
+	}
+	return s
 }
